@@ -162,7 +162,7 @@ static Verdict evaluate(const TaskCase &c, const c16_out &o) {
       label("no_timeout_while_active");
     }
     if (c.dir == 0 && !self_stopped_early && !inj && !c.rearm) {
-      bool idle_at_end = (c.end == 0 && o.sent_total < (uint64_t)c.win_len);
+      bool idle_at_end = (c.end == 0 && o.sent_total < (uint64_t)c.win_len && c.timeout_ms <= 500 && c.handler == 0);
       if (idle_at_end) { PBT_REQUIRE(n_timeout >= 1, "an armed idle task never reported its timeout"); label("timeout_reported"); nt = true; }
     }
   }
